@@ -6,6 +6,7 @@ package main
 // Observables: accept/reject, whom the answer names, re-issued artefacts, Set-Cookie, DB digest.
 
 import (
+	"crypto/sha256"
 	"database/sql"
 	"encoding/json"
 	"fmt"
@@ -42,6 +43,9 @@ func c04Config(c *AppConfigFile, dir string) {
 	c.OpenIDConnectIDP.Client = []OpenIDConnectClientConfig{
 		{ClientID: c04ClientA, ClientSecret: c04SecretA, AllowedRedirectDomains: []string{"a.example"}},
 		{ClientID: c04ClientB, ClientSecret: "", AllowedRedirectDomains: []string{"b.example"}},
+		// a second confidential client: the two-channel product of c04_channels.go needs a client that
+		// can authenticate with credentials of its own while naming another one
+		{ClientID: c04ClientC, ClientSecret: c04SecretC, AllowedRedirectDomains: []string{"c.example"}},
 	}
 }
 
@@ -848,6 +852,10 @@ func TestVerif_C04(t *testing.T) {
 	}
 	sb.WriteString("].\nDefinition c04_corrupt_mismatches := Eval vm_compute in flat_map (batch_mismatches c04_idp toks) corrupt_batches.\nPrint c04_corrupt_mismatches.\n")
 	sb.WriteString(fmt.Sprintf("Definition c04_ncorrupt := %d%%nat.\nPrint c04_ncorrupt.\n", ncorrupt))
+	// ---- 6. the two identity channels of the token endpoint (after everything else: fresh codes)
+	chCoq, _ := env.c04Channels(t, res)
+	sb.WriteString("From KM Require Import Model.OIDCChannels.\n")
+	sb.WriteString(chCoq)
 	if err := ioutil.WriteFile(filepath.Join(verifOut(), "CasesC04.v"), []byte(sb.String()), 0644); err != nil {
 		t.Fatal(err)
 	}
@@ -867,4 +875,226 @@ func TestVerif_C04(t *testing.T) {
 	res.write(t, "TestVerif_C04")
 	_ = os.Getenv
 	_ = rand.Int
+}
+
+// ---------------------------------------------------------------- the two identity channels of the token endpoint
+
+// C04 — the two identity channels of the token endpoint.  A token request can name a client in the
+// Authorization: Basic header (id, secret) and in the body (client_id, client_secret); the two may
+// name different registered clients.  The full product
+//     code issued to {A, A with a PKCE challenge, B (PKCE), C}
+//   x header {absent | id in {"", A, B, C, unknown} x secret in {none, A's, C's, a wrong one}}
+//   x body   {client_id in {absent, A, B, C, unknown} x client_secret in {none, A's, C's, a wrong one}}
+//   x verifier {none, the right one}
+// is driven through the real /idp/oauth2/token handler, in the canonical order of
+// Model/OIDCChannels.v (which enumerates the same product inside Coq); only the codes, the
+// constants and the vector of observed results are shipped.
+//
+// Oracle (the statement's own predicate, no precedence rule in it): tokens were released =>
+// the request carries, in ONE channel, the identity of the client the code was issued to together
+// with that client's proof (its secret in the same channel; for the secret-less client the right
+// verifier), and the ID token's sole audience is that client.
+
+const (
+	c04ClientC   = "clientC"
+	c04SecretC   = "secret+of/C%41"
+	c04ClientX   = "clientX"
+	c04WrongPw   = "not the secret"
+	c04RedirectC = "https://app.c.example/cb"
+	c04Verifier  = "c04-verifier-0123456789abcdefghijklmnopqrstuvwxyz-ABCDEFG"
+)
+
+type c04ChanRelease struct {
+	idx      int
+	idt, act *symTok
+}
+
+// returns the Coq text to append to CasesC04.v and the index lines (file CasesC04ch.idx)
+func (env *verifEnv) c04Channels(t *testing.T, res *verifResult) (string, string) {
+	ids := []string{c04ClientA, c04ClientB, c04ClientC, c04ClientX}
+	secrets := []string{c04SecretA, c04SecretC, c04WrongPw}
+	configured := map[string]string{c04ClientA: c04SecretA, c04ClientB: "", c04ClientC: c04SecretC}
+	sum := sha256.Sum256([]byte(c04Verifier))
+	chal := b64e(sum[:])
+	type codeT struct {
+		tok      *symTok
+		client   string
+		redirect string
+		pkce     bool
+	}
+	mint := func(client, redirect string, pkce bool) codeT {
+		extra := url.Values{}
+		if pkce {
+			extra.Set("code_challenge", chal)
+			extra.Set("code_challenge_method", "S256")
+		}
+		code, status := env.c04Authorize(t, "alice", client, redirect, extra)
+		if code == "" {
+			t.Fatalf("c04 channels: authorize refused for %s: %d", client, status)
+		}
+		return codeT{tok: newSymTok(code, env.signerKeyID(), false, "code for "+client), client: client, redirect: redirect, pkce: pkce}
+	}
+	codes := []codeT{
+		mint(c04ClientA, c04RedirectA, false),
+		mint(c04ClientA, c04RedirectA, true),
+		mint(c04ClientB, c04RedirectB, true),
+		mint(c04ClientC, c04RedirectC, false),
+	}
+	pick := func(l []string, n int) string {
+		if n == 0 {
+			return ""
+		}
+		return l[n-1]
+	}
+	var observed []byte
+	var rel []c04ChanRelease
+	var idx strings.Builder
+	hitOnce := map[string]bool{}
+	t0 := time.Now().UnixNano()
+	n := 0
+	for _, code := range codes {
+		for hi := 0; hi <= len(ids); hi++ {
+			for hs := 0; hs <= len(secrets); hs++ {
+				for bi := 0; bi <= len(ids); bi++ {
+					for bp := 0; bp <= len(secrets); bp++ {
+						for vm := 0; vm < 2; vm++ {
+							form := url.Values{"grant_type": {"authorization_code"}, "redirect_uri": {code.redirect}, "code": {code.tok.raw}}
+							if bi > 0 {
+								form.Set("client_id", pick(ids, bi))
+							}
+							if bp > 0 {
+								form.Set("client_secret", pick(secrets, bp))
+							}
+							if vm == 1 {
+								form.Set("code_verifier", c04Verifier)
+							}
+							req := verifNewRequest("POST", idpOpenIDCTokenPath, form)
+							header := hi > 0 || hs > 0
+							if header {
+								// RFC 6749 2.3.1: the header carries the form-encoded id and secret
+								req.SetBasicAuth(url.QueryEscape(pick(ids, hi)), url.QueryEscape(pick(secrets, hs)))
+							}
+							rr, _ := env.serve(req)
+							var tr tokenResponse
+							ok := rr.Code == 200 && json.Unmarshal(rr.Body.Bytes(), &tr) == nil && tr.IDToken != ""
+							label := fmt.Sprintf("token request: code issued to %s%s; header %s; body client_id=%q client_secret=%s; verifier=%v",
+								code.client, map[bool]string{true: " (PKCE challenge)", false: ""}[code.pkce],
+								map[bool]string{true: fmt.Sprintf("id=%q secret=%s", pick(ids, hi), c04SecretName(pick(secrets, hs))), false: "absent"}[header],
+								pick(ids, bi), c04SecretName(pick(secrets, bp)), vm == 1)
+							if ok {
+								observed = append(observed, 1)
+								res.bump("channels:released")
+								idt := newSymTok(tr.IDToken, env.signerKeyID(), false, "id")
+								act := newSymTok(tr.AccessToken, env.signerKeyID(), false, "access")
+								rel = append(rel, c04ChanRelease{idx: n, idt: idt, act: act})
+								// the statement's predicate: a proof for the client the code was issued to
+								want := configured[code.client]
+								proved := false
+								if want != "" {
+									proved = (header && pick(ids, hi) == code.client && pick(secrets, hs) == want) ||
+										(bi > 0 && pick(ids, bi) == code.client && pick(secrets, bp) == want)
+								} else {
+									proved = vm == 1 && code.pkce && ((header && pick(ids, hi) == code.client) || (bi > 0 && pick(ids, bi) == code.client))
+								}
+								shape := fmt.Sprintf("header=%s body=%s", c04ChanClass(header, pick(ids, hi), code.client), c04ChanClass(bi > 0, pick(ids, bi), code.client))
+								if !proved && !hitOnce["subject"+shape] {
+									hitOnce["subject"+shape] = true
+									res.hit(verifHit{Key: "C04:accepted:token:subject", Oracle: "the token endpoint honoured an authorization code for a caller that did not prove to be the client the code's signed subject names",
+										What:     "tokens released although no channel carries the identity of the code's client together with that client's proof (" + shape + "): " + label,
+										Case:     map[string]interface{}{"label": label, "index": n, "code": code.tok.raw, "code_claims": code.tok.claims},
+										Observed: map[string]interface{}{"status": rr.Code, "id_token_claims": idt.claims}})
+								}
+								aud, _ := idt.claims["aud"].([]interface{})
+								if (len(aud) != 1 || aud[0] != code.client) && !hitOnce["aud"+shape] {
+									hitOnce["aud"+shape] = true
+									res.hit(verifHit{Key: "C04:released:token:audience", Oracle: "the ID token released for a code names the code's client as its sole audience",
+										What:     fmt.Sprintf("ID token audience %v for a code issued to %s (%s): %s", aud, code.client, shape, label),
+										Case:     map[string]interface{}{"label": label, "index": n, "code": code.tok.raw},
+										Observed: map[string]interface{}{"id_token_claims": idt.claims}})
+								}
+							} else {
+								observed = append(observed, 0)
+								res.bump("channels:refused")
+							}
+							res.eval(fmt.Sprintf("channels|%d|%v", n, ok), true)
+							idx.WriteString(fmt.Sprintf("%d\t%s\treleased=%v status=%d\n", n, label, ok, rr.Code))
+							n++
+						}
+					}
+				}
+			}
+		}
+	}
+	t1 := time.Now().UnixNano()
+	if len(rel) == 0 {
+		res.hit(verifHit{Key: "C04:harness:channels-nothing-released", Oracle: "harness", What: "no channel combination released tokens", Case: nil})
+	}
+	res.Extra["channel_requests"] = n
+	res.Extra["channel_released"] = len(rel)
+
+	var sb strings.Builder
+	sb.WriteString("\n(* ---- the two identity channels of the token endpoint (Model/OIDCChannels.v) *)\n")
+	sb.WriteString("Definition ch_codes_l : list token := [\n")
+	for i, c := range codes {
+		sep := ";"
+		if i == len(codes)-1 {
+			sep = ""
+		}
+		sb.WriteString(" " + env.coqToken(c.tok) + sep + "\n")
+	}
+	sb.WriteString("].\n")
+	var idl, secl, redl []string
+	for _, s := range ids {
+		idl = append(idl, coqStr(s))
+	}
+	for _, s := range secrets {
+		secl = append(secl, coqStr(s))
+	}
+	for _, c := range codes {
+		redl = append(redl, coqStr(c.redirect))
+	}
+	sb.WriteString(fmt.Sprintf("Definition c04_chenv : chenv :=\n  {| ch_ids := [%s]; ch_secrets := [%s]; ch_V := %s; ch_HV := %s;\n     ch_redirects := [%s]; ch_codes := ch_codes_l |}.\n",
+		strings.Join(idl, "; "), strings.Join(secl, "; "), coqStr(c04Verifier), coqStr(chal), strings.Join(redl, "; ")))
+	sb.WriteString("Definition ch_observed : bs := " + coqPacked(observed) + ".\n")
+	sb.WriteString(fmt.Sprintf("Definition ch_scanned := Eval vm_compute in ch_scan c04_idp c04_chenv (%d)%%Z (%d)%%Z ch_observed.\n", t0, t1))
+	sb.WriteString("Definition c04_channel_mismatches := Eval vm_compute in fst ch_scanned.\nPrint c04_channel_mismatches.\n")
+	sb.WriteString("Definition c04_channel_violating := Eval vm_compute in snd ch_scanned.\nPrint c04_channel_violating.\n")
+	sb.WriteString("Definition c04_nchannel := Eval vm_compute in length (ch_combos c04_chenv).\nPrint c04_nchannel.\n")
+	sb.WriteString("Definition ch_released_cases : list (nat * claimset * claimset) := [\n")
+	for i, r := range rel {
+		sep := ";"
+		if i == len(rel)-1 {
+			sep = ""
+		}
+		sb.WriteString(fmt.Sprintf(" (%d%%nat, %s, %s)%s\n", r.idx, env.coqClaims(r.idt), env.coqClaims(r.act), sep))
+	}
+	sb.WriteString(fmt.Sprintf("].\nDefinition c04_channel_release_mismatches := Eval vm_compute in map (fun k => fst (fst k)) (filter (ch_release_bad c04_idp c04_chenv (%d)%%Z (%d)%%Z) ch_released_cases).\nPrint c04_channel_release_mismatches.\n", t0, t1))
+	sb.WriteString("Definition c04_channel_release_violating := Eval vm_compute in map (fun k => fst (fst k)) (filter (ch_release_violates c04_chenv) ch_released_cases).\nPrint c04_channel_release_violating.\n")
+	ioutil.WriteFile(filepath.Join(verifOut(), "CasesC04ch.idx"), []byte(idx.String()), 0644)
+	return sb.String(), idx.String()
+}
+
+func c04SecretName(s string) string {
+	switch s {
+	case "":
+		return "none"
+	case c04SecretA:
+		return "A's"
+	case c04SecretC:
+		return "C's"
+	}
+	return "wrong"
+}
+
+// how a channel relates to the client the code was issued to (stable shape names for hit texts)
+func c04ChanClass(present bool, id, codeClient string) string {
+	switch {
+	case !present:
+		return "absent"
+	case id == codeClient:
+		return "code-client"
+	case id == c04ClientX || id == "":
+		return "unknown"
+	}
+	return "other-client"
 }
